@@ -866,6 +866,9 @@ class Checker:
         if D.escaped_dots:
             rep.count("escaped_dot_segment_not_judged")  # RFC 7252 6.4 step 2 vs 5.10.1: no defined outcome
             return True
+        if D.ambiguous_host:
+            rep.count("escaped_ipv4_lookalike_not_judged")  # "%31.2.3.4": reg-name by the grammar, address after normalisation
+            return True
         iri_host = iri and any(ord(c) >= 0x80 for c in D.host.text)
         st, res = self.attempt(u)
         outcome = st
@@ -921,11 +924,16 @@ class Checker:
         rep = self.rep
         pre = "iri/" if iri else ""
         reserved = host_needs_escape(obs.uri_host)
+
+        def K(key):
+            # whatever goes wrong downstream of a Uri-Host that is composed without escaping is that mechanism
+            return "compose/host-reserved-char-not-escaped" if reserved else pref(pre, key)
+
         try:
             u2 = m.get_request_uri()
         except Exception as e:
             rep.monitor("b_recomposed_ref")
-            rep.violation(pref(pre, "compose/host-reserved-char-not-escaped" if reserved else "compose/raises/" + type(e).__name__), "get_request_uri() raised %r on a message built from a valid URI" % e, dict(wit, tb=rep.exception_witness(e)), case)
+            rep.violation(K("compose/raises/" + type(e).__name__), "get_request_uri() raised %r on a message built from a valid URI" % e, dict(wit, tb=rep.exception_witness(e)), case)
             return True
         wit = dict(wit, composed=u2)
         violated = False
@@ -934,8 +942,7 @@ class Checker:
         st2 = ref.classify(u2)
         if st2[0] != "ok":
             violated = True
-            key = "compose/host-reserved-char-not-escaped" if reserved else "compose/not-a-valid-coap-uri/" + st2[1]
-            rep.violation(pref(pre, key), "get_request_uri() produced text that is not a valid CoAP URI (%s: %s)" % st2, wit, case)
+            rep.violation(K("compose/not-a-valid-coap-uri/" + st2[1]), "get_request_uri() produced text that is not a valid CoAP URI (%s: %s)" % st2, wit, case)
         else:
             D2 = st2[1]
             rep.monitor("b_equivalent")
@@ -946,20 +953,20 @@ class Checker:
                 violated = True
                 names = ["scheme", "host", "host", "host", "port", "path", "query"] if not iri_host else ["scheme", "port", "path", "query"]
                 comps = sorted({names[i] for i in range(len(k1)) if k1[i] != k2[i]})
-                key = "compose/host-reserved-char-not-escaped" if reserved else "roundtrip/" + "+".join(comps) + "-not-equivalent"
-                rep.violation(pref(pre, key), "the composed URI is not equivalent to the input (differs in %s): a different resource" % ", ".join(comps), dict(wit, input_key=repr(k1), composed_key=repr(k2)), case)
+                rep.violation(K("roundtrip/" + "+".join(comps) + "-not-equivalent"), "the composed URI is not equivalent to the input (differs in %s): a different resource" % ", ".join(comps), dict(wit, input_key=repr(k1), composed_key=repr(k2)), case)
             else:
                 nf = ref.normal_form_defects(u2)
                 for aspect in nf:
                     violated = True
-                    rep.violation(pre + "compose/not-normalised/" + aspect, "the composed URI is not in normal form (%s)" % aspect, wit, case)
+                    rep.violation(K("compose/not-normalised/" + aspect), "the composed URI is not in normal form (%s)" % aspect, wit, case)
         # by aiocoap itself
         rep.monitor("b_recomposed_self")
         st, res = self.attempt(u2)
         if st != "ok":
             if not violated:
                 violated = True
-                rep.violation(pre + "roundtrip/composed-uri-not-accepted", "the library does not accept the URI it composed (%s)" % type(res).__name__, dict(wit, exc=repr(res)), case)
+                key = K("roundtrip/composed-uri-not-accepted") if st == "urlerr" or reserved else escape_key(u2, res)
+                rep.violation(key, "the library does not accept the URI it composed (%s)" % type(res).__name__, dict(wit, exc=repr(res)), case)
             return violated
         obs2 = Obs(res)
         try:
@@ -967,14 +974,13 @@ class Checker:
         except (ref.NotAUri, ref.Reject) as e:
             if not violated:
                 violated = True
-                rep.violation(pre + "roundtrip/remote-hostinfo", "remote.hostinfo of the re-decomposed message is not host[:port] (%r)" % e, dict(wit, second=obs2.as_dict()), case)
+                rep.violation(K("roundtrip/remote-hostinfo"), "remote.hostinfo of the re-decomposed message is not host[:port] (%r)" % e, dict(wit, second=obs2.as_dict()), case)
             return violated
         if (e1 != e2 or obs.uri_host != obs2.uri_host) and not violated:
             violated = True
             names = ["scheme", "host", "host", "host", "port", "path", "query"]
             comps = sorted({names[i] for i in range(len(e1)) if e1[i] != e2[i]} | ({"uri_host"} if obs.uri_host != obs2.uri_host else set()))
-            key = "compose/host-reserved-char-not-escaped" if reserved else "roundtrip-self/" + "+".join(comps)
-            rep.violation(pref(pre, key), "decomposing the composed URI gives different options (%s)" % ", ".join(comps), dict(wit, first=obs.as_dict(), second=obs2.as_dict()), case)
+            rep.violation(K("roundtrip-self/" + "+".join(comps)), "decomposing the composed URI gives different options (%s)" % ", ".join(comps), dict(wit, first=obs.as_dict(), second=obs2.as_dict()), case)
         if not violated:
             try:
                 u3 = res.get_request_uri()
@@ -982,7 +988,7 @@ class Checker:
                 u3 = "raised %r" % e
             if u3 != u2:
                 violated = True
-                rep.violation(pre + "roundtrip/not-a-fixed-point", "composing the re-decomposed options gives yet another URI", dict(wit, third=u3), case)
+                rep.violation(K("roundtrip/not-a-fixed-point"), "composing the re-decomposed options gives yet another URI", dict(wit, third=u3), case)
         return violated
 
     # ---- (c) -------------------------------------------------------------------------------------------
@@ -1063,7 +1069,8 @@ class Checker:
             if prev is not None and prev[0] != E and outcome == "ok":
                 outcome = "violated"
                 rep.violation(self.refine(o, set(), "collapse/shard-wide"), "two different option sets compose to the same URI", dict(wit, other=repr(prev[0])), ["optpair", prev[1], case[1]] if case[0] == "opt" else case)
-            elif prev is None and case[0] == "opt" and len(self.composed) < 60000:
+            elif prev is None and case[0] == "opt" and outcome == "ok" and len(self.composed) < 60000:
+                # (a set that does not round-trip has been reported under its own key; it would only pollute this map)
                 self.composed[u] = (E, case[1])
             # distinctness against the twin
             if twin is not None:
